@@ -155,4 +155,4 @@ static bool replay(const std::string &text) {
     run_input(in, false);
     return vp::stats().failures.empty();
 }
-int main(int argc, char **argv) { return vp::main_(argc, argv, {run, replay}); }
+VP_MAIN(run, replay)
